@@ -1534,6 +1534,7 @@ namespace awkward {
     }
     else {
       bool has_offsets = false;
+      bool lacks_offsets = false;
       std::vector<std::shared_ptr<int64_t>> offsetsptrs;
       std::vector<int64_t*> offsetsraws;
       ContentPtrVec contents;
@@ -1544,7 +1545,18 @@ namespace awkward {
         offsetsptrs.push_back(offsets.ptr());
         offsetsraws.push_back(offsets.data());
         contents.push_back(pair.second);
-        has_offsets = (offsets.length() != 0);
+        if (offsets.length() != 0) {
+          has_offsets = true;
+        }
+        else {
+          lacks_offsets = true;
+        }
+      }
+      if (has_offsets  &&  lacks_offsets) {
+        throw std::invalid_argument(
+          std::string("cannot flatten a UnionArray whose contents reach axis=")
+          + std::to_string(axis) + std::string(" at different depths")
+          + FILENAME(__LINE__));
       }
 
       if (has_offsets) {
